@@ -3,7 +3,12 @@
 #   run.sh <ID> <quick|thorough> [--replay FILE] [other vcheck flags]
 # Rebuilds the harness (and with it /repo's current working tree, feature `verif` on), then runs
 # the check. Exit 0 = held on everything explored, 1 = VIOLATION, 2 = inconclusive (build failure,
-# watchdog, starved generator).
+# watchdog, starved generator, harness problem).
+#
+# thorough = the proptest-driven check with 10-20x the quick budget and larger size bounds, and,
+# for the properties that have a libFuzzer target (C06 kv, C07 prefix, C18 addr, C02 tree,
+# C14 staking), a coverage-guided campaign of a fixed number of runs over the same generator and
+# oracle, started from a fresh temporary corpus seeded from /verif/fuzz/seeds/<target>.
 ID="$1"; TIER="${2:-quick}"
 [ -n "$ID" ] || { echo "usage: run.sh <ID> <quick|thorough> [--replay FILE]" >&2; exit 2; }
 shift; [ $# -gt 0 ] && shift
@@ -15,4 +20,58 @@ if ! (cd "$VERIF_ROOT/harness" && cargo build --release --offline -q 2>"$VERIF_R
   grep -E "^error" -A 8 "$VERIF_ROOT/harness/build.log" | head -40
   exit 2
 fi
-exec "$VERIF_ROOT/harness/target/release/vcheck" "$ID" --tier "$TIER" "$@"
+"$VERIF_ROOT/harness/target/release/vcheck" "$ID" --tier "$TIER" "$@"
+rc=$?
+# replay runs, quick runs and failed runs end here
+case " $* " in *" --replay "*) exit $rc ;; esac
+[ "$TIER" = "thorough" ] || exit $rc
+[ $rc -eq 0 ] || exit $rc
+
+case "$ID" in
+  C06) TARGET=kv; RUNS=600000; MAXLEN=1400 ;;
+  C07) TARGET=prefix; RUNS=600000; MAXLEN=900 ;;
+  C18) TARGET=addr; RUNS=300000; MAXLEN=500 ;;
+  C02) TARGET=tree; RUNS=150000; MAXLEN=12000 ;;
+  C14) TARGET=staking; RUNS=200000; MAXLEN=1600 ;;
+  *) exit 0 ;;
+esac
+[ -n "$VERIF_FUZZ_RUNS" ] && RUNS="$VERIF_FUZZ_RUNS"
+FZ="$VERIF_ROOT/fuzz"
+if ! (cd "$VERIF_ROOT/harness" && cargo +nightly fuzz build --fuzz-dir "$FZ" -s none "$TARGET" >"$FZ/build.log" 2>&1); then
+  echo "INCONCLUSIVE property=$ID libFuzzer target $TARGET failed to build (see fuzz/build.log); the proptest part passed"
+  exit 2
+fi
+TMP=$(mktemp -d "${TMPDIR:-/var/tmp}/vfuzz.$TARGET.XXXXXX")
+trap 'rm -rf "$TMP"' EXIT INT TERM
+mkdir -p "$TMP/corpus" "$TMP/artifacts"
+SEED="${VERIF_SEED:-0}"; [ "$SEED" = "0" ] && SEED=1
+BEFORE=$(ls "$VERIF_ROOT/replays" 2>/dev/null | wc -l)
+"$FZ/target/x86_64-unknown-linux-gnu/release/$TARGET" "$TMP/corpus" "$FZ/seeds/$TARGET" \
+   -runs="$RUNS" -seed="$SEED" -len_control=0 -max_len="$MAXLEN" -timeout=60 -rss_limit_mb=4096 \
+   -artifact_prefix="$TMP/artifacts/" -print_final_stats=1 >"$TMP/fuzz.log" 2>&1
+frc=$?
+grep -E "^(failure|VIOLATION)|stat::number_of_executed_units|stat::new_units_added" "$TMP/fuzz.log" | head -10
+EXECS=$(grep -E "stat::number_of_executed_units" "$TMP/fuzz.log" | awk '{print $2}')
+python3 - "$VERIF_ROOT/evidence/$ID.json" "$TARGET" "${EXECS:-0}" "$frc" <<'EOF' 2>/dev/null
+import json, sys
+p, target, execs, frc = sys.argv[1], sys.argv[2], int(sys.argv[3] or 0), int(sys.argv[4])
+try:
+    e = json.load(open(p))
+    e["coverage"]["libfuzzer"] = {"target": target, "executions": execs, "exit_code": frc, "note": "coverage-guided campaign over the same generator and oracle; only approximately reproducible from the seed, the saved replay file is the reproducible unit"}
+    e["coverage"]["evaluations"] = e["coverage"].get("evaluations", 0) + execs
+    json.dump(e, open(p, "w"), indent=1)
+except Exception as ex:
+    print("could not amend evidence:", ex)
+EOF
+if grep -q "^VIOLATION" "$TMP/fuzz.log"; then
+  grep "^VIOLATION" "$TMP/fuzz.log" | head -3
+  exit 1
+fi
+if [ $frc -ne 0 ]; then
+  # timeout / out-of-memory / crash outside the oracle: inconclusive, never a violation
+  echo "INCONCLUSIVE property=$ID libFuzzer target $TARGET stopped with exit code $frc without an oracle failure (see below)"
+  tail -5 "$TMP/fuzz.log"
+  exit 2
+fi
+echo "OK property=$ID (proptest thorough + libFuzzer $TARGET: ${EXECS:-?} executions)"
+exit 0
